@@ -870,7 +870,8 @@ func (schema *Schema) IsEmpty() bool {
 		schema.MinProps != 0 || schema.MaxProps != nil {
 		return false
 	}
-	if n := schema.Not; n != nil && n.Value != nil && !n.Value.IsEmpty() {
+	if schema.Not != nil {
+		// "not" constrains the value even when its sub-schema is empty: `not: {}` matches nothing
 		return false
 	}
 	if ap := schema.AdditionalProperties.Schema; ap != nil && ap.Value != nil && !ap.Value.IsEmpty() {
@@ -887,10 +888,9 @@ func (schema *Schema) IsEmpty() bool {
 			return false
 		}
 	}
-	for _, s := range schema.OneOf {
-		if ss := s.Value; ss != nil && !ss.IsEmpty() {
-			return false
-		}
+	if len(schema.OneOf) != 0 {
+		// "oneOf" requires exactly one match: two empty sub-schemas match twice
+		return false
 	}
 	for _, s := range schema.AnyOf {
 		if ss := s.Value; ss != nil && !ss.IsEmpty() {
